@@ -217,7 +217,7 @@ func (pc *parallelChunker) createChunks(ctx context.Context, wf writerFactory, t
 		}
 
 		group.Go(func() error {
-			verifhook.At("checkpoint.chunkTask.start")
+			verifhook.AtN("checkpoint.chunkTask.start", i)
 			hash, err := task.nextChunk(ctx, w, pc.chunkSize)
 			if err != nil {
 				return fmt.Errorf("creating new chunk with index %d", idx)
